@@ -4,7 +4,7 @@ from __future__ import annotations
 from hypothesis import strategies as st
 
 from .. import gen, sgr
-from ..cells import build, build_plainmix, cells_of_desc, show
+from ..cells import build_any, cells_of_desc, show
 from ..common import Res, call, exc_str, hyp_campaign
 
 PROP = "C01"
@@ -42,7 +42,9 @@ def run_case(case):
         res.label("control_char")
     res.nontrivial = bool(res.labels & {"multi_format", "style_and_colour"})
 
-    f, e = call(build_plainmix if mode == "plainmix" else build, desc, *(() if mode == "plainmix" else (mode,)))
+    if mode in gen.DERIVED_BUILDS:
+        res.label("derived_from_observed_parent")
+    f, e = call(build_any, desc, mode, case.get("obs", 0))
     if e is not None:
         res.viol("build_raised", error=exc_str(e), mode=mode)
         return res
@@ -64,7 +66,7 @@ def run_case(case):
 
 def strategy():
     return st.fixed_dictionaries(
-        {"desc": gen.desc(alphabet=gen.ALL_TEXT, max_runs=6, max_len=4), "build": st.sampled_from(MODES)}
+        {"desc": gen.desc_sized(alphabet=gen.ALL_TEXT, max_runs=6, max_len=4), "build": st.sampled_from(MODES + MODES + gen.DERIVED_BUILDS), "obs": gen.OBS}
     )
 
 
